@@ -30,7 +30,12 @@ Pre(v, k)   == IF k = 1 THEN Proj(InitSt) ELSE ObsState(v.steps[k - 1])
 
 \* ------------------------------------------------------------------ verdict
 Tag(names, k) == {n \o "@" \o ToString(k) : n \in names}
-StepBad(v, k) == LET s == v.steps[k] IN Violated(Pre(v, k), s.m, ObsCodes(s), ObsState(s), ObsDlv(s))
+\* the reply that handed the client its latest token before step k (real replies: tk = [has, code, user, lvl] of each step)
+RECURSIVE PrevTk(_, _)
+PrevTk(v, k) == IF k <= 1 THEN NoPtk
+                ELSE IF v.steps[k - 1].tk.has THEN [code |-> v.steps[k - 1].tk.code, u |-> v.steps[k - 1].tk.user, l |-> v.steps[k - 1].tk.lvl]
+                ELSE PrevTk(v, k - 1)
+StepBad(v, k) == LET s == v.steps[k] IN Violated(Pre(v, k), s.m, ObsCodes(s), ObsState(s), ObsDlv(s), PrevTk(v, k))
 
 ProbeBad(v) ==
   IF ~v.probe.done THEN (IF ~v.died /\ (Len(v.steps) = 0 \/ ~v.steps[Len(v.steps)].panic) THEN {"PreLoginRefused@probe-unanswered"} ELSE {})
@@ -52,6 +57,7 @@ Match(o, s) ==
   /\ (IF o.rep.echo THEN ObsIds(s) \subseteq {s.rid} ELSE ObsIds(s) \subseteq {""})
   /\ Proj(o.st) = ObsState(s)
   /\ o.dlv = ObsDlv(s)
+  /\ (s.tk.has => o.st.tok.code = s.tk.code /\ o.st.tok.u = s.tk.user /\ o.st.tok.l = s.tk.lvl)
 
 RECURSIVE Track(_, _, _)
 Track(v, k, ms) ==
